@@ -69,6 +69,16 @@ def configs(tier):
     # the write path (get_filename, makedirs, handler) has about 500
     # scheduling points per execution
     out.append(("output", dict(n=2, workers=2), mid))
+    # align: two loader pools (primaries, secondaries) next to the main
+    # thread that pairs their results through its cache of secondaries
+    for rel in ((((0, (0, 1)), (1, (1,)))), ((0, (0,)), (1, (0, 1)))):
+        for nthreads in ((2,) if q else (2, 4)):
+            out.append(("align", dict(n=2, s=2, rel=rel, threads=nthreads,
+                                      period=None, fault=None, skip=False,
+                                      info=True), wide))
+    out.append(("align", dict(n=2, s=2, rel=((0, (0, 1)), (1, (1,))),
+                              threads=2, period=None, fault=("B", 1),
+                              skip=True, info=True), wide))
     if not q:
         out.append(("output", dict(n=3, workers=2), 1))
     return out
@@ -175,6 +185,10 @@ def make_run(kind, c, root):
     if kind == "ops":
         fs, files = cp.build(os.path.join(root, "ops%d" % c["n"]), c["n"],
                              c["fs_wtype"])
+    elif kind == "align":
+        from checks import c10_align as ca
+        fs, B, files, fb = ca.build(os.path.join(root, "al"), c["n"], c["s"],
+                                    c["threads"], 0)
     else:
         fs, files, out = build_output(os.path.join(root, "o%d" % c["n"]),
                                       c["n"])
@@ -184,13 +198,16 @@ def make_run(kind, c, root):
         saved = (fsmod.ThreadPoolExecutor, fsmod.gc)
         fsmod.ThreadPoolExecutor = threads.pool_class(sched)
         fsmod.gc = cp.NoGC
-        restore = sched.install_waiters()
+        restore = sched.install_waiters((fsmod,))
         fs.info_cache.clear()
         r = cp.Run(c, fs, files) if kind == "ops" else None
         sched.start_tracing()
         try:
             if kind == "ops":
                 obs = r.execute()
+            elif kind == "align":
+                B.info_cache.clear()
+                obs = ca.execute(fs, B, files, fb, c)
             else:
                 obs = execute_output(c, fs, files, out,
                                      os.path.join(root, "o%d" % c["n"]))
@@ -205,6 +222,10 @@ def make_run(kind, c, root):
             if obs[0][0] == "exception" and obs[0][1] == "Deadlock":
                 obs = (("deadlock", obs[0][2]),) + obs[1:]
             bad = cp.judge(c, obs, None)
+            if bad is not None:
+                bad = ("threads/" + bad[0],) + tuple(bad[1:])
+        elif kind == "align":
+            bad = ca.judge(c, obs)
             if bad is not None:
                 bad = ("threads/" + bad[0],) + tuple(bad[1:])
         else:
@@ -289,6 +310,10 @@ def run_shard(shard):
 
 def replay(case):
     c = case["cfg"]
+    if case["kind"] == "align":
+        c["rel"] = tuple((i, tuple(secs)) for i, secs in c["rel"])
+        if c["fault"] is not None:
+            c["fault"] = tuple(c["fault"])
     if case["kind"] == "ops":
         c["fail"] = tuple(c["fail"])
         if c["sel"] == "bundled":
